@@ -373,7 +373,7 @@ def decode(model, ids):
            "scan": {"missing": [[ln, dn(d)] for ln, d in model["scan"]["missing"]],
                     "unused": [[ln, dn(f), dn(a)] for ln, f, a in model["scan"]["unused"]]},
            "trace": [[ln, rev[n], r] for ln, n, r in model["trace"]]}
-    for k in ("stage", "star_free", "sound", "precise", "exact", "ustage", "unused_ok", "dx", "unused_doc_ok"):
+    for k in ("stage", "star_free", "sound", "precise", "exact", "ustage", "unused_ok", "dx", "unused_doc_ok", "tstage", "tsound", "tprecise"):
         if k in model:
             out[k] = model[k]
     if "scandoc" in model:
@@ -707,6 +707,11 @@ def check_case(ctx, case, src, ids, im, mo):
     if stage >= 1 and not (mo.get("sound", True) and mo.get("precise", True)):
         ctx.disagreement("statement check: stage-%d soundness / precision is false on this program" % stage, rec,
                          {"sound": mo.get("sound"), "precise": mo.get("precise")}, mo.get("trace"))
+    tstage = mo.get("tstage", 0) if mo.get("star_free", True) else 0
+    ctx.bump("tfragment:stage%d" % tstage if tstage else "tfragment:outside")
+    if tstage >= 2 and not (mo.get("tsound", True) and mo.get("tprecise", True)):
+        ctx.disagreement("statement check: stage-%d soundness / precision of scan_for_import_issues' missing list is false" % tstage,
+                         rec, {"sound": mo.get("tsound"), "precise": mo.get("tprecise")}, mo.get("trace"))
     ustage = mo.get("ustage", 0) if mo.get("star_free", True) else 0
     ctx.bump("ufragment:stage%d" % ustage if ustage else "ufragment:outside")
     if ustage >= 1 and not mo.get("unused_ok", True):
